@@ -363,6 +363,14 @@ THREAD_SITES = [
 ]
 
 
+# a second accepted shape per function: `EnterEpoch` may load the global epoch itself instead of through the accessor
+# `Epoch::GetCurrentEpoch` (the model has one load followed by one store either way; the load's order then comes from here -
+# `EnterEpoch` is the only modelled user of that load)
+THREAD_SITES_ALT = {
+    'Epoch::EnterEpoch': (['load', 'store'], ['epoch.getCurrent', 'epoch.enter']),
+}
+
+
 def gen_thread(status):
     names = ['kCapacity', 'kInitialEpoch', 'kMinEpoch']
     vals = compile_consts('thread', [f'{REPO}/include/dbgroup/thread/epoch_manager.hpp'], names,
@@ -380,6 +388,9 @@ def gen_thread(status):
         if found:
             sites = cxxscan.atomic_sites_inlined(src, found[1])
             ok = ops_match(ops, [s_['op'] for s_ in sites])
+            if not ok and q in THREAD_SITES_ALT and ops_match(THREAD_SITES_ALT[q][0], [s_['op'] for s_ in sites]):
+                ok = True
+                ops, slots = THREAD_SITES_ALT[q]
         status['functions'][q] = {'recognised': ok, 'expected_ops': ops,
                                   'sites': [{'op': s_['op'], 'orders': s_['orders'], 'recv': s_['recv']} for s_ in sites]}
         if ok:
